@@ -13,6 +13,7 @@ mod ctx;
 mod driver;
 mod icd;
 mod rng;
+mod rtworld;
 mod s3sim;
 mod streamsim;
 mod tape;
@@ -79,6 +80,35 @@ fn main() {
             let nw: u64 = args[6].parse().unwrap_or(1);
             let budget: u64 = args[7].parse().unwrap_or(60);
             driver::worker_main(c, tier, seed, w, nw, budget)
+        }
+        Some("run") => {
+            // run <id> <tier> <section> <index> [trace]
+            let c = driver::find(&args[2]).expect("check");
+            let tier = Tier::parse(&args[3]).unwrap_or(Tier::Quick);
+            let section: u32 = args[4].parse().unwrap();
+            let index: u64 = args[5].parse().unwrap();
+            let p = ctx::Params {
+                property: c.id().to_string(),
+                tier,
+                section,
+                index,
+                seed: driver::run_seed(driver::verif_seed(), c.id(), section, index),
+                trace: args.get(6).is_some(),
+            };
+            let t0 = std::time::Instant::now();
+            let ex = driver::execute(c, &p, None, true);
+            for l in &ex.ctx.trace {
+                println!("{}", l);
+            }
+            println!("fp={:016x} class={:016x} tape={} evals={} sim_ms={} nontrivial={} wall={:?}", ex.ctx.fp.0, ex.ctx.class.0, ex.tape.len(), ex.ctx.evaluations, ex.ctx.sim_ms, ex.ctx.nontrivial, t0.elapsed());
+            println!("counters={:?}", ex.ctx.counters);
+            println!("violation={:?} harness={:?}", ex.ctx.violation, ex.harness_error);
+            let mut p2 = p.clone();
+            p2.trace = false;
+            let ex2 = driver::execute(c, &p2, None, false);
+            println!("again: fp={:016x} tape_equal={} evals={} sim_ms={}", ex2.ctx.fp.0, ex2.tape == ex.tape, ex2.ctx.evaluations, ex2.ctx.sim_ms);
+            println!("sample={}", ex.ctx.sample.map(|s| s.to_string()).unwrap_or_default());
+            0
         }
         Some("replay") => match args.get(2) {
             Some(f) => driver::replay_main(f),
